@@ -58,10 +58,8 @@ pub struct ExUtf8Error(std::str::Utf8Error);
     f.replace_all_re(r"(\w+)\.iter\(\)\.position\(", r"shim_slice_position(\1, ", "R2", why="slice.iter().position(p) behind a shim", min_count=1)
     f.closure("|c|", params="|c: &u8|", ret="r: bool", spec="ensures r == ({specbody})", spec_map=SPEC_MAP)
     f.contract("    ensures /*@L:skips_exactly_the_leading_terminators:C06,C05*/ ret@ == skip_nl(bytes@),")
-    f.insert_before("&bytes[pos..]", "{ proof { lemma_skip_nl(bytes@, pos as int); } ")
-    f.insert_after("&bytes[pos..]", " }")
-    f.insert_before('b""', "{ proof { lemma_skip_nl(bytes@, bytes@.len() as int); assert(bytes@.subrange(bytes@.len() as int, bytes@.len() as int) =~= Seq::<u8>::empty()); } ")
-    f.insert_after('b""', " }")
+    f.wrap_arm("Some(pos) =>", "proof { lemma_skip_nl(bytes@, pos as int); }")
+    f.wrap_arm("None =>", "proof { lemma_skip_nl(bytes@, bytes@.len() as int); assert(bytes@.subrange(bytes@.len() as int, bytes@.len() as int) =~= Seq::<u8>::empty()); }")
     u.emit(f)
 
     # ---------------- split_line ----------------
@@ -74,10 +72,8 @@ pub struct ExUtf8Error(std::str::Utf8Error);
         /*@L:error_line_is_the_first_line_with_its_terminator:C06*/ ret.0@ == bytes@.subrange(0, line_end(bytes@)) && ret.1@ == bytes@.subrange(line_end(bytes@), bytes@.len() as int),
         0 <= line_end(bytes@) <= bytes@.len(), bytes@.len() > 0 ==> line_end(bytes@) >= 1,""")
     f.body_start("proof { vstd::slice::axiom_spec_len(bytes); }\n")
-    f.insert_before("pos + 1", "{ proof { lemma_line_end(bytes@, pos as int); } ")
-    f.insert_after("pos + 1", " }")
-    f.insert_before("bytes.len()", "{ proof { lemma_line_end(bytes@, bytes@.len() as int); } ")
-    f.insert_after("bytes.len()", " }")
+    f.wrap_arm("Some(pos) =>", "proof { lemma_line_end(bytes@, pos as int); }")
+    f.wrap_arm("None =>", "proof { lemma_line_end(bytes@, bytes@.len() as int); }")
     u.emit(f)
 
     # ---------------- parse_prefix ----------------
@@ -308,8 +304,8 @@ pub proof fn lemma_sfp_no_nl()
                      why="fn item `is_newline` passed as predicate: eta-expanded into a closure carrying its contract", min_count=1)
     f.replace_all_re(r"\.map\(\|\(v, bytes\)\| \(Some\(v\), bytes\)\)", ".map(|vb: (&str, &[u8])| -> (r: (Option<&str>, &[u8])) ensures r == (Some(vb.0), vb.1) { let (v, bytes) = vb; (Some(v), bytes) })", "R3",
                      why="closure with a tuple pattern parameter: pattern moved into a `let` inside the body, contract added", min_count=1)
-    f.replace_all_re(r"key\.trim\(\)", "shim_trim(key)", "R2", why="str::trim behind a shim (result is a sub-slice)", min_count=1)
-    f.replace_all_re(r"value\.map\(\|v\| v\.trim\(\)\)", "value.map(|v: &str| -> (r: &str) ensures str_bytes(r) == spec_trim(str_bytes(v)), exists|a: int, b: int| 0 <= a <= b <= str_bytes(v).len() && str_bytes(r) == #[trigger] str_bytes(v).subrange(a, b) { shim_trim(v) })", "R2", min_count=1)
+    f.replace_all_re(r"key\.trim\(\)", "shim_trim(key)", "R2", why="str::trim behind a shim (result is a sub-slice)", min_count=0)
+    f.replace_all_re(r"value\.map\(\|v\| v\.trim\(\)\)", "value.map(|v: &str| -> (r: &str) ensures str_bytes(r) == spec_trim(str_bytes(v)), exists|a: int, b: int| 0 <= a <= b <= str_bytes(v).len() && str_bytes(r) == #[trigger] str_bytes(v).subrange(a, b) { shim_trim(v) })", "R2", min_count=0)
     f.contract("""    ensures
         /*@L:header_grammar:C05*/ match ret {
             Ok((ProguardRecord::Header { key, value }, rest)) => header_spec(bytes@) == Some(HeaderSpec { key: str_bytes(key), value: opt_bytes(value), rest: rest@ }),
@@ -321,7 +317,7 @@ pub proof fn lemma_sfp_no_nl()
     f.body_start("let ghost b0 = bytes@;\n    proof { axiom_byte_literals(); reveal_strlit(\"sourceFile\"); }\n")
     f.after_stmt("let bytes = parse_prefix(bytes, b\"#\")", "    let ghost body = bytes@;\n    proof { assert(body =~= b0.subrange(1, b0.len() as int)); assert(b0.subrange(0, 1)[0] == 35u8); assert(b0[0] == 35u8); }\n")
     f.insert_after("if let Ok(bytes) = parse_prefix(bytes, SOURCE_FILE_PREFIX) {", "\n        let ghost v0 = bytes@;")
-    f.after_stmt("let (value, bytes) = parse_until_no_newline(", "        let ghost v1 = bytes@;\n")
+    f.after_stmt("let (value, bytes) = parse_until", "        let ghost v1 = bytes@;\n")
     f.after_stmt("let bytes = parse_prefix(bytes, br#", "        let ghost v2 = bytes@;\n")
     f.insert_before("Ok((record, consume_leading_newlines(bytes)))", """proof {
             let v = str_bytes(value);
